@@ -490,6 +490,13 @@ pub fn serde(a: &Args, rep: &mut Report) {
             if back != m {
                 return Err("map round trip through MapDeserializer differs".into());
             }
+            // wrong input shapes are rejected with the collection's own expectation text
+            serde_test::assert_de_tokens_error::<HashMap<u64, u64, Bh>>(&[Token::U64(1)], "invalid type: integer `1`, expected a map");
+            serde_test::assert_de_tokens_error::<HashSet<u64, Bh>>(&[Token::U64(1)], "invalid type: integer `1`, expected a sequence");
+            let bad: serde::de::value::U64Deserializer<DeError> = serde::de::value::U64Deserializer::new(7);
+            if <HashSet<u64, Bh> as Deserialize>::deserialize_in_place(bad, &mut place).is_ok() {
+                return Err("deserialize_in_place accepted an integer".into());
+            }
             Ok(set_split || place_split)
         });
         match r {
